@@ -1,6 +1,9 @@
 """C16 - optional/required scalars: null, range, ordering and SBE defaults."""
 from common import *
 import gtab
+import spec_optional
+import e4
+from props._lib import lib_for
 
 LEVEL = "other"
 
@@ -8,12 +11,29 @@ LEVEL = "other"
 def run(chk, tier):
     facts = sbeppc_facts()
     gtab.check(chk, facts, which=("keys", "wrapper", "literal"))
+    plan = [("vprims_le", "c++17"), ("vprims_le", "c++20")]
+    if tier == "thorough":
+        plan += [("vprims_be", "c++17"), ("vprims_le", "c++11"), ("vprims_le", "c++14"), ("test_schema", "c++17"), ("vlayout", "c++17")]
+    for name, std in plan:
+        lib = lib_for(name, std)
+        spec_optional.check(chk, lib)
+        if std == "c++20":
+            n = spec_optional.check_threeway(chk, lib)
+            chk.floor("operator<=> instantiations", n, 10)
+    e4.check(chk, ("minmaxnull",), tier, only=None if tier == "thorough" else ["vprims_le", "vprims_be", "test_schema"])
     chk.floor("G-TAB.literal", chk.rule_counts.get("G-TAB.literal", 0), 55)
     chk.floor("G-TAB.keys", chk.rule_counts.get("G-TAB.keys", 0), 8)
+    chk.floor("OPT.order", chk.rule_counts.get("OPT.order", 0), 40)
     return chk.finish(
-        explanation=("G-TAB: generator default min/max/null tables (types_compiler) compared row by row with the "
-                     "sbepp built-in constants (SBEPP_BUILT_IN_IMPL) through static_assert witnesses over the two "
-                     "constants, braced into the primitive's C++ type as the generated `return {lit};` does; key sets "
-                     "of every per-primitive table; wrapper-type rows."),
-        rule_text=("instances = table rows x rule; distinct by (rule,row key); a row is non-trivial when its verdict "
-                   "needed a compile witness or a key-set comparison"))
+        explanation=("(a) truth tables: for every instantiation of the six pre-C++20 comparison operators of optional_base "
+                     "(all 11 primitives, built-in and schema-defined types) each E2 path is checked under every "
+                     "(lhs present, rhs present) assignment consistent with its branch decisions against the documented rule "
+                     "(null equals only null, orders before every value, otherwise raw values compare); ==/!= compare raw "
+                     "values; has_value = val != null_value(); value_or; in_range = min <= val && val <= max; C++20 "
+                     "operator<=> compares values when both present, presence flags otherwise, and its declared category "
+                     "admits the value type's. (b) NaN rule: a floating-point null tested with != is flagged (finding D8b). "
+                     "(c) G-TAB: generator default min/max/null tables equal the sbepp built-in constants row by row "
+                     "(static_assert witnesses over constants in the brace context of the generated code). (d) E4: generated "
+                     "min_value/max_value/null_value of every schema type of the corpus equal the XML text or the SBE default."),
+        rule_text=("instances = operator instantiation x path x (L,R) assignment, table rows, generated types; distinct by "
+                   "(rule, type)"))
